@@ -32,6 +32,9 @@ type c17Config struct {
 	NoNoop     bool     `json:"no_noop,omitempty"`
 	NRcpt      int      `json:"nrcpt"`
 	TimeoutMS  int      `json:"timeout_ms"`
+	// Ctx: the context handed to the *WithContext calls: "" = context.Background() | later = a context whose own
+	// deadline is one hour away (the configured timeout is the tighter bound and still has to hold)
+	Ctx string `json:"ctx,omitempty"`
 }
 
 type c17Case struct {
@@ -111,6 +114,11 @@ func runC17Case(r *ev.Run, c c17Case) int {
 		defer close(done)
 		defer func() { _ = recover() }()
 		ctx := context.Background()
+		if cfg.Ctx == "later" {
+			var cancel context.CancelFunc
+			ctx, cancel = context.WithTimeout(ctx, time.Hour)
+			defer cancel()
+		}
 		switch cfg.Call {
 		case "dial":
 			mu.Lock()
@@ -244,6 +252,11 @@ func c17Configs(thorough bool) []c17Config {
 				c17Config{Name: call + "-starttls-auth", Call: call, TLS: "starttls", Caps: with("STARTTLS"), CapsTLS: with("AUTH PLAIN"), Auth: "PLAIN-TLSONLY", NRcpt: 1, TimeoutMS: tmo},
 			)
 		}
+		// a caller context with a deadline of its own that is far later than the configured timeout
+		cfgs = append(cfgs, c17Config{Name: call + "-plain-ctx-later", Call: call, TLS: "none", Caps: with("AUTH PLAIN"), Auth: "PLAIN", NRcpt: 1, TimeoutMS: tmo, Ctx: "later"})
+		if thorough || call == "dial" {
+			cfgs = append(cfgs, c17Config{Name: call + "-starttls-ctx-later", Call: call, TLS: "starttls", Caps: with("STARTTLS"), CapsTLS: all, NRcpt: 1, TimeoutMS: tmo, Ctx: "later"})
+		}
 		if call != "dial" {
 			// without the NOOP connection check the deadline must still be armed for the send dialogue
 			cfgs = append(cfgs, c17Config{Name: call + "-nonoop", Call: call, TLS: "none", Caps: all, NoNoop: true, NRcpt: 2, TimeoutMS: tmo})
@@ -260,7 +273,7 @@ func c17Configs(thorough bool) []c17Config {
 
 func runC17(r *ev.Run, rep *ev.ReplayDoc) ev.Summary {
 	sum := ev.Summary{
-		Rule: "for DialWithContext, DialAndSend, Send and Reset x {no TLS, STARTTLS} x {no auth, PLAIN, LOGIN, AUTH after STARTTLS, HELO fallback}: the reference server goes silent (holding the connection) at every command position of the dialogue in turn - greeting, EHLO, HELO, STARTTLS reply, inside the TLS handshake, post-TLS EHLO, every AUTH step, NOOP, MAIL, each RCPT, DATA, inside the content, end-of-data reply, RSET, QUIT. The tracking conn records the deadline armed at the entry of every Read/Write. non-trivial = the stall point was reached; distinct by (configuration, stall point)",
+		Rule: "for DialWithContext, DialAndSend, Send and Reset x {no TLS, STARTTLS} x {no auth, PLAIN, LOGIN, AUTH after STARTTLS, HELO fallback} x {context.Background, a caller context whose own deadline is an hour away}: the reference server goes silent (holding the connection) at every command position of the dialogue in turn - greeting, EHLO, HELO, STARTTLS reply, inside the TLS handshake, post-TLS EHLO, every AUTH step, NOOP, MAIL, each RCPT, DATA, inside the content, end-of-data reply, RSET, QUIT. The tracking conn records the deadline armed at the entry of every Read/Write. non-trivial = the stall point was reached; distinct by (configuration, stall point)",
 		Assumptions: []string{
 			"generous bound: a call counts as blocked only if it has not returned max(20 x timeout, 5 s) + timeout after it started",
 			"violation = still blocked AND the pending network operation was entered without a deadline (the logical cause); blocked with a deadline armed = inconclusive",
